@@ -295,6 +295,8 @@ void XMLGrammarPoolImpl::deserializeGrammars(BinInputStream* const binIn)
     // thrown during deserialization.
     JanitorMemFunCall<XMLGrammarPoolImpl>   cleanup(this, &XMLGrammarPoolImpl::cleanUp);
 
+    bool storedLocked = false;
+
     try
     {
         XSerializeEngine  serEng(binIn, this);
@@ -324,8 +326,10 @@ void XMLGrammarPoolImpl::deserializeGrammars(BinInputStream* const binIn)
                     , memMgr);
         }
 
-        //lock status
-        serEng>>fLocked;
+        //lock status: takes effect once the grammars are loaded. While
+        //they are, the string pool in use must be the one that exists
+        //(only lockPool() creates the synchronized one of a locked pool)
+        serEng>>storedLocked;
 
         //StringPool, don't use >>
         fStringPool->serialize(serEng);
@@ -349,8 +353,14 @@ void XMLGrammarPoolImpl::deserializeGrammars(BinInputStream* const binIn)
     // Everything is OK, so we can release the cleanup object.
     cleanup.release();
 
+    fLocked = storedLocked;
     if (fLocked)
     {
+        // what lockPool() sets up for a pool that is locked by hand
+        if (!fSynchronizedStringPool)
+        {
+            fSynchronizedStringPool = new (memMgr) XMLSynchronizedStringPool(fStringPool, 109, memMgr);
+        }
         createXSModel();
     }
 }
